@@ -3,8 +3,9 @@ package badger
 // C09 — torn tails.  For every write step (WAL / value-log mmap write, MANIFEST append) of a
 // history, the image "files as before the step, the written file torn at byte c" is built for
 // every c inside the bytes that step changed: bytes before c as after the step, bytes from c on
-// as before the step (zeros for the pre-allocated mmap files and, for the MANIFEST, both
-// "file ends at c" and "file extended to its new length but zero-filled").
+// as before the step: for the pre-allocated mmap logs zeros up to the old length AND the file
+// ending at c; for the MANIFEST "file ends at c" and "file extended to its new length but
+// zero-filled".
 
 import (
 	"fmt"
@@ -61,6 +62,9 @@ func (cr *crashRun) c09Images(maxPerStep int) []crashImage {
 					}
 				} else {
 					mk("zero-tail", pf.Size, torn)
+					if c09CutShort && c >= 20 { // the file ends inside the record (the 20-byte log header stays)
+						mk("cut-short", int64(c), torn[:c])
+					}
 				}
 			}
 		}
@@ -71,6 +75,9 @@ func (cr *crashRun) c09Images(maxPerStep int) []crashImage {
 
 // c09MaxPerStep caps the cut offsets per write step (0 = every byte); set from the job.
 var c09MaxPerStep int
+
+// c09CutShort adds, for the mmap logs, the images in which the file ends at the cut.
+var c09CutShort bool
 
 func init() {
 	register("crash09", crashWorker("crash09", func(cr *crashRun) []crashImage { return cr.c09Images(c09MaxPerStep) }))
